@@ -207,10 +207,8 @@ impl IntoLower for ast::Identifier {
                 }
             }
             ast::Symbol::Output(index) => Ok(ir::Expression::Number(*index as i128)),
-            _ => {
-                dbg!(&self);
-                todo!();
-            }
+            // asset, type, case, field and function names do not denote a value by themselves
+            _ => Err(Error::InvalidSymbol(self.value.clone(), "value")),
         }
     }
 }
@@ -260,7 +258,12 @@ impl IntoLower for ast::StructConstructor {
                     .case
                     .spread
                     .as_ref()
-                    .expect("spread must be set for missing explicit field")
+                    .ok_or_else(|| {
+                        Error::InvalidAst(format!(
+                            "missing field '{}' and no spread expression to take it from",
+                            field_def.name.value
+                        ))
+                    })?
                     .into_lower(ctx)?;
 
                 fields.push(ir::Expression::EvalBuiltIn(Box::new(
@@ -467,6 +470,13 @@ impl IntoLower for ast::FnCall {
 
                 match coerce_identifier_into_asset_def(&self.callee) {
                     Ok(asset_def) => {
+                        if self.args.is_empty() {
+                            return Err(Error::InvalidAst(format!(
+                                "{} expects an amount argument",
+                                function_name
+                            )));
+                        }
+
                         let policy = asset_def.policy.into_lower(ctx)?;
                         let asset_name = asset_def.asset_name.into_lower(ctx)?;
                         let amount = self.args[0].into_lower(ctx)?;
